@@ -1,15 +1,17 @@
 #!/bin/sh
 # usage: keep_seed.sh <PROP> <A|B> "<needs-to-manifest one-liner>"
 # Confirms the seed on /repo HEAD and, if confirmed, copies it to /verif/seeded/<PROP>-<v>/ with meta.json.
+# env: SEEDROOT (default /tmp/seed), SUFFIX (appended to the kept directory name, e.g. r2)
 P="$1"; V="$2"; NEEDS="$3"
-SRC=/tmp/seed/$P/.demo/$V
-OUT=$(/verif/tools/confirm_seed.sh "$SRC" /tmp/seed/$P); RC=$?
+ROOT="${SEEDROOT:-/tmp/seed}"
+SRC=$ROOT/$P/.demo/$V
+OUT=$(/verif/tools/confirm_seed.sh "$SRC" $ROOT/$P); RC=$?
 echo "$OUT"
 [ $RC -eq 0 ] || { echo "NOT CONFIRMED: $P/$V"; exit 1; }
-D=/verif/seeded/$P-$V
+D=/verif/seeded/$P-$V$SUFFIX
 rm -rf "$D"; mkdir -p "$D"
 cp "$SRC/patch.diff" "$D/patch.diff"; cp -r "$SRC/demo" "$D/demo"; [ -f "$SRC/NOTES.md" ] && cp "$SRC/NOTES.md" "$D/NOTES.md"
-python3 - "$P" "$V" "$NEEDS" "$OUT" "$(git -C /repo rev-parse --short HEAD)" <<'PY'
+python3 - "$P" "$V$SUFFIX" "$NEEDS" "$OUT" "$(git -C /repo rev-parse --short HEAD)" <<'PY'
 import json,sys
 p,v,needs,out,head=sys.argv[1:6]
 json.dump({"property":p,"variant":v,"breaks":p,"needs_to_manifest":needs,
